@@ -38,7 +38,9 @@ def run_seed(name, all_checks, confirm_only):
         dst = os.path.join(tmp, 'repo')
         shutil.copytree('/repo', dst, ignore=shutil.ignore_patterns('.git', '__pycache__', '*.egg-info'))
         env = dict(os.environ, PYTHONPATH=os.path.join(dst, 'modules'), PYTHONDONTWRITEBYTECODE='1')
-        demo = os.path.join(d, 'demo.py')
+        # the demonstrations were written to live in the repository root
+        demo = os.path.join(dst, 'demo_seed.py')
+        shutil.copy(os.path.join(d, 'demo.py'), demo)
         # demonstration passes on the unchanged tree
         p = sh([PY, demo], dst, env)
         out['demo_without'] = 'pass' if p.returncode == 0 else 'FAIL(%d)' % p.returncode
